@@ -103,3 +103,112 @@ def run(U, rep, tier):
               construct='forward(sys, q, qd) == mj_kinematics reference, %d links, %d GF(p) trials' % (len(links), len(seeds)))
   rep.stat('interpreter_calls', calls)
   rep.stat('topologies', len(tops))
+  scan_spec(U, rep, tier)
+
+
+# ------------------------------------------------------------------------------------------
+# R1.2: scan.tree / scan.link_types regrouping == its specification, for EVERY kinematic forest
+def _forests(nmax):
+  """All parent arrays with parent[i] in {-1, 0..i-1} (every topologically ordered forest)."""
+  import itertools
+  for n in range(1, nmax + 1):
+    for ps in itertools.product(*[range(-1, i) for i in range(n)]):
+      yield ps
+
+
+def scan_spec(U, rep, tier):
+  from braxlint.avn import Struct, symarr, uf
+  from braxlint import symsys
+  f = U.func('brax.scan.tree')
+  I = new_interp(U.repo, contracts=False)
+  nmax = 5 if tier == 'quick' else 6
+  bad = None
+  count = 0
+  for ps in _forests(nmax):
+    n = len(ps)
+    count += 1
+    types = ''.join('f' if (p == -1 and i % 2 == 0) else str(1 + (i % 3)) for i, p in enumerate(ps))
+    sysd = Struct('System', {'link_types': types, 'link_parents': tuple(ps)}, home='brax.base')
+    x = symarr('x', (n,))
+
+    def fwd(carry, xs):
+      xs = asarr(xs)
+      if carry is None:
+        return np.array([uf('f', 'root', v) for v in xs], dtype=object)
+      return np.array([uf('f', c, v) for c, v in zip(asarr(carry), xs)], dtype=object)
+
+    got = I.apply(fn('brax.scan', 'tree'), [sysd, ('prim', 'f', fwd), 'l', x], {})
+    want = [None] * n
+    for i in range(n):
+      want[i] = uf('f', 'root', x[i]) if ps[i] < 0 else uf('f', want[ps[i]], x[i])
+    if not same(got, np.array(want, dtype=object)):
+      bad = ('tree', ps)
+      break
+
+    def bwd(carry, xs):
+      xs = asarr(xs)
+      if carry is None:
+        return np.array([uf('g', 0, v) for v in xs], dtype=object)
+      return np.array([uf('g', c, v) for c, v in zip(asarr(carry), xs)], dtype=object)
+
+    got = I.apply(fn('brax.scan', 'tree'), [sysd, ('prim', 'g', bwd), 'l', x], {'reverse': True})
+    want = [None] * n
+    depth = lambda i: 0 if ps[i] < 0 else 1 + depth(ps[i])
+    maxd = max(depth(i) for i in range(n))
+    for i in sorted(range(n), key=lambda i: -depth(i)):
+      kids = [want[c] for c in range(n) if ps[c] == i]
+      if depth(i) == maxd:
+        want[i] = uf('g', 0, x[i])
+      else:
+        s_ = Rat.lift(0)
+        for k in kids:
+          s_ = s_ + k
+        want[i] = uf('g', s_, x[i])
+    if not same(got, np.array(want, dtype=object)):
+      bad = ('tree(reverse)', ps)
+      break
+    # link_types: per-type application with q / d / l splits restored to system order
+    QW = {'f': 7, '1': 1, '2': 2, '3': 3}
+    DW = {'f': 6, '1': 1, '2': 2, '3': 3}
+    nq, nv = sum(QW[t] for t in types), sum(DW[t] for t in types)
+    q, d = symarr('q', (nq,)), symarr('d', (nv,))
+
+    def per_type(typ, qs, ds, ls):
+      qs, ds, ls = asarr(qs), asarr(ds), asarr(ls)
+      return (np.array([uf('Q', typ, v) for v in qs], dtype=object), np.array([uf('D', typ, v) for v in ds], dtype=object),
+              np.array([uf('L', typ, v) for v in ls], dtype=object))
+
+    gq, gd, gl = I.apply(fn('brax.scan', 'link_types'), [sysd, ('prim', 'h', per_type), 'qdl', 'qdl', q, d, x], {})
+    wq, wd, wl, qi, di = [], [], [], 0, 0
+    for i, t in enumerate(types):
+      wq += [uf('Q', t, q[qi + k]) for k in range(QW[t])]
+      wd += [uf('D', t, d[di + k]) for k in range(DW[t])]
+      wl.append(uf('L', t, x[i]))
+      qi += QW[t]
+      di += DW[t]
+    if not (same(gq, np.array(wq, dtype=object)) and same(gd, np.array(wd, dtype=object)) and same(gl, np.array(wl, dtype=object))):
+      bad = ('link_types', ps)
+      break
+  # the gather helper under both regroupings: _take(x, idxs) == [x[i] for i in idxs] for every index list
+  import itertools
+  ft = U.func('brax.scan._take')
+  tbad = None
+  ntake = 0
+  xs = symarr('t', (4,))
+  for L in range(1, 5):
+    for idxs in itertools.product(range(4), repeat=L):
+      ntake += 1
+      got = I.apply(fn('brax.scan', '_take'), [xs, list(idxs)], {})
+      if not same(got, xs[list(idxs)]):
+        tbad = idxs
+        break
+    if tbad:
+      break
+  rep.check(tbad is None, 'R1.2', 'scan._take(x, idxs) gathers x[idxs] for every index list (length <= 4 over 4 entries)',
+            lambda: 'scan._take returns the wrong elements for idxs=%r (contiguity shortcut taken for a non-contiguous list)' % (tbad,),
+            where=ft.where(), construct='%d index lists, exhaustive' % ntake)
+  rep.check(bad is None, 'R1.2', 'scan.tree / scan.link_types regroup and restore order for every forest of <= %d links' % nmax,
+            lambda: 'scan.%s does not implement its specification on the forest with link_parents=%r: some link receives another '
+            'link\'s parent carry / data' % (bad[0], bad[1]), where=f.where(),
+            construct='%d parent arrays x (tree, tree reverse, link_types) with uninterpreted per-level functions' % count)
+  rep.stat('forests_checked', count)
